@@ -312,7 +312,8 @@ def check_lattice_model(inp):
 def _graph_from_json(j):
     from pytenet.opgraph import OpGraph, OpGraphNode, OpGraphEdge
     nodes = [OpGraphNode(n['nid'], n['eids_in'], n['eids_out'], n['qnum']) for n in j['nodes']]
-    edges = [OpGraphEdge(e['eid'], e['nids'], [(o, c) for o, c in e['opics']]) for e in j['edges']]
+    shared = {}           # parallel edges are built from one caller-side list object, as in the symbolic harness
+    edges = [OpGraphEdge(e['eid'], shared.setdefault(tuple(e['nids']), list(e['nids'])), [(o, c) for o, c in e['opics']]) for e in j['edges']]
     return OpGraph(nodes, edges, j['nid_terminal'])
 
 
@@ -464,7 +465,7 @@ def check_automaton(inp):
                     W.wadd(nxt.setdefault(e['b'], {}), w + (int(oid),), c * cc)
         cur = nxt
     ref = cur.get(term[1], {})
-    nodes = [AutOpNode(i, [], [], inp['qnums'][i]) for i in range(nn)]
+    nodes = [AutOpNode(i, [], [], inp['qnums'][i]) for i in inp.get('node_order', list(range(nn)))]
     aut = AutOp(nodes, [], term)
     for eid, e in enumerate(inp['edges']):
         tbl = [[(o, c) for o, c in site] for site in e['opics']]
